@@ -168,3 +168,78 @@ Theorem C12_generated_callbacks_registered :
     (forall s c, RegOk m s -> RegOk m (fst (gen_run_cb m (cb_of m) c s))).
 Proof. exact (fun m => conj (regs_ok_init m) (conj (regs_ok_create_task m) (regs_ok_run_cb m))). Qed.
 Print Assumptions C12_generated_callbacks_registered.
+
+(* ---- the fully generated asynchronous stack (GenAsyncSystem.v): generated managers on TaskMgr.v's event loop, generated executor on top ---- *)
+
+(* ---- the capstone of the tie (theories/GenAsyncSystem.v, see props/C11.v): the event machine [gen_tm_run] built from
+   the generated manager classes on TaskMgr.v's event loop computes TaskMgr.run on every event list. *)
+From EAS Require GenAsyncSystem.
+Import GenAsyncSystem.
+Theorem C12_generated_machine_is_model :
+  forall nm m evs, cfg_ok m ->
+    gms (gen_tm_run nm m evs) = run m evs /\ regs_ok m (gen_tm_run nm m evs) /\ gexc (gen_tm_run nm m evs) = [].
+Proof. exact gen_tm_run_is_model. Qed.
+Print Assumptions C12_generated_machine_is_model.
+
+Theorem C12_generated_machine_par_bound :
+  forall nm n p evs, cfg_ok (MParLim n p) -> length (tracked (gen_tm_state nm (MParLim n p) evs)) <= n.
+Proof. exact gen_tm_par_bound. Qed.
+Print Assumptions C12_generated_machine_par_bound.
+
+Theorem C12_generated_machine_par_victim :
+  forall nm n p evs c k,
+    cfg_ok (MParLim n p) -> ph (gen_tm_state nm (MParLim n p) evs) c = Unknown ->
+    let s := set_flag (gen_tm_state nm (MParLim n p) evs) false in
+    let s' := gen_tm_state nm (MParLim n p) (evs ++ [Submit c k]) in
+    if length (tracked s) <? n then
+      tracked s' = tracked s ++ [c] /\ closed s' = closed s /\ mcanc s' = mcanc s /\
+      started s' = started s ++ [c] /\ ph s' c = Created /\ ready s' = ready s ++ [HStep c]
+    else
+      match p with
+      | PSkip =>
+          tracked s' = tracked s /\ closed s' = closed s ++ [c] /\ mcanc s' = mcanc s /\
+          started s' = started s /\ ph s' c = Closed /\ ready s' = ready s /\
+          (forall x, x <> c -> ph s' x = ph s x) /\ mc s' = mc s
+      | PCancelFirst =>
+          exists v t, tracked s = v :: t /\
+            tracked s' = t ++ [c] /\ mcanc s' = mcanc s ++ [v] /\ closed s' = closed s /\
+            started s' = started s ++ [c] /\ ph s' c = Created /\
+            ready s' = ready (task_cancel s v) ++ [HStep c] /\
+            (forall x, x <> c -> ph s' x = ph (task_cancel s v) x) /\ mc s' = mc (task_cancel s v)
+      | PCancelLast =>
+          exists v t, tracked s = t ++ [v] /\
+            tracked s' = t ++ [c] /\ mcanc s' = mcanc s ++ [v] /\ closed s' = closed s /\
+            started s' = started s ++ [c] /\ ph s' c = Created /\
+            ready s' = ready (task_cancel s v) ++ [HStep c] /\
+            (forall x, x <> c -> ph s' x = ph (task_cancel s v) x) /\ mc s' = mc (task_cancel s v)
+      end.
+Proof. exact gen_tm_par_victim. Qed.
+Print Assumptions C12_generated_machine_par_victim.
+
+Theorem C12_generated_machine_par_release :
+  forall nm m evs, cfg_ok m -> is_par m = true ->
+    (forall c, In c (tracked (gen_tm_state nm m evs)) -> is_live (ph (gen_tm_state nm m evs) c) = true) /\
+    (forall c, is_live (ph (gen_tm_state nm m evs) c) = true ->
+       In c (tracked (gen_tm_state nm m evs)) \/ In c (mcanc (gen_tm_state nm m evs))) /\
+    NoDup (tracked (gen_tm_state nm m evs)) /\
+    (forall c r bs, ready (gen_tm_state nm m evs) = HDone c :: r ->
+       cbs_for c (regs (rt (gen_tm_run nm m evs))) = [cb_of m] /\
+       ~ In c (tracked (gen_tm_state nm m (evs ++ [Run bs]))) /\
+       (exists d, ph (gen_tm_state nm m (evs ++ [Run bs])) c = Processed d) /\
+       length (tracked (gen_tm_state nm m (evs ++ [Run bs]))) <= length (tracked (gen_tm_state nm m evs))).
+Proof. exact gen_tm_par_release. Qed.
+Print Assumptions C12_generated_machine_par_release.
+
+Theorem C12_generated_machine_unbounded_keeps :
+  forall nm evs,
+    (forall c, In c (map fst (subk (gen_tm_state nm MPar evs))) -> In c (started (gen_tm_state nm MPar evs))) /\
+    closed (gen_tm_state nm MPar evs) = [] /\ mcanc (gen_tm_state nm MPar evs) = [] /\
+    (forall c, In c (tracked (gen_tm_state nm MPar evs)) <-> is_live (ph (gen_tm_state nm MPar evs) c) = true) /\
+    (forall c d, ph (gen_tm_state nm MPar evs) c = Processed d -> ~ In c (tracked (gen_tm_state nm MPar evs))).
+Proof. exact gen_tm_unbounded_keeps. Qed.
+Print Assumptions C12_generated_machine_unbounded_keeps.
+
+Theorem C12_generated_machine_conservation :
+  forall nm m evs, cfg_ok m -> conservation_stmt (gen_tm_state nm m evs).
+Proof. exact gen_tm_conservation. Qed.
+Print Assumptions C12_generated_machine_conservation.
